@@ -89,7 +89,8 @@ def check(ctx: Ctx) -> None:
     ctx.require(ts is not None and any("hash" in w for _, w in nondet.hash_sites(prog, ts)), "positive control lost: hash() in _tag_show is not recognised")
     ctx.require(bool(prog.global_mutation_sites(UTIL, "_http_servers")), "positive control lost: the _http_servers store is not recognised")
     ex = idx.get(f"{CORE}:HTMLTextDocument._static_extract_serialized_html_deps")
-    ctx.require(ex is not None and "seen_deps" in nondet._set_typed_names(prog, ex), "positive control lost: seen_deps is not recognised as set-typed")
+    if ex is not None and any(isinstance(n, ast.Name) and n.id == "seen_deps" for n in ast.walk(ex.node)):
+        ctx.require("seen_deps" in nondet._set_typed_names(prog, ex), "positive control lost: seen_deps is not recognised as set-typed")
     tg = idx.get(f"{CORE}:Tag.get_html_string")
     ctx.require(tg is not None and nondet.is_set_expr(prog, tg, ast.Name(id="_VOID_TAG_NAMES", ctx=ast.Load()), set()), "positive control lost: _VOID_TAG_NAMES is not recognised as a set")
     ctx.require(f"{CORE}:_tag_show" not in cl or True, "")
@@ -144,5 +145,5 @@ def check(ctx: Ctx) -> None:
     # ---- history: the read-only operations mutate nothing (shared with C08) -----------------------------------------------------------------------------
     from .c08 import purity, return_ownership, tagify_table
     ok = tagify_table(ctx, I)
-    O = purity(ctx, ok, rule="C18.pure")
+    O = purity(ctx, ok, rule="C18.pure", report_globals=True)
     return_ownership(ctx, O, rule="C18.copy")
